@@ -6,8 +6,9 @@
     (compute_rise_curve and the command `spowtd simulate rise`). *)
 From Coq Require Import Reals List Sorted Permutation.
 From Coquelicot Require Import Coquelicot.
-From Spowtd Require Import Model.SimRise Proofs.SplineWrapSpec Proofs.SimRiseSpec
-  Proofs.SimRiseSplineSpec.
+From Coq Require Import QArith.
+From Spowtd Require Import Model.SimRise Model.SplineWrapPP Proofs.SplineWrapSpec
+  Proofs.SplineWrapPPSpec Proofs.SimRiseSpec Proofs.SimRiseSplineSpec.
 Import ListNotations.
 Local Open Scope R_scope.
 
@@ -27,14 +28,14 @@ Theorem C17_diff :
 Proof. exact spline_curve_diff. Qed.
 Print Assumptions C17_diff.
 
-(** ... and that is the Riemann integral of the clamped specific yield. *)
+(** ... and that is the Riemann integral of the clamped specific yield, when
+    inside the knots splint is the integral of splev (FITPACK contract). *)
 Theorem C17_diff_is_integral :
   forall (xmin xmax : R) (ev : R -> R) (splint : R -> R -> R) (P : R -> R),
     xmin < xmax ->
     (forall a b, xmin <= a -> a <= b -> b <= xmax -> splint a b = P b - P a) ->
     (forall a, xmax <= a -> splint a xmax = 0) ->
-    (forall x, xmin <= x <= xmax -> is_derive P x (ev x)) ->
-    (forall x, xmin <= x <= xmax -> continuous ev x) ->
+    (forall a b, xmin <= a -> a <= b -> b <= xmax -> is_RInt ev a b (P b - P a)) ->
     forall grid m W,
       rise_curve Rops (integrate Rops xmin xmax ev splint) grid m = Ok W ->
       forall i j d, (i < length grid)%nat -> (j < length grid)%nat ->
@@ -84,8 +85,7 @@ Theorem C17_monotone :
     xmin < xmax ->
     (forall a b, xmin <= a -> a <= b -> b <= xmax -> splint a b = P b - P a) ->
     (forall a, xmax <= a -> splint a xmax = 0) ->
-    (forall x, xmin <= x <= xmax -> is_derive P x (ev x)) ->
-    (forall x, xmin <= x <= xmax -> continuous ev x) ->
+    (forall a b, xmin <= a -> a <= b -> b <= xmax -> is_RInt ev a b (P b - P a)) ->
     (forall x, xmin <= x <= xmax -> 0 <= ev x) ->
     forall grid m W,
       rise_curve Rops (integrate Rops xmin xmax ev splint) grid m = Ok W ->
@@ -133,3 +133,70 @@ Theorem C17_observations :
     simulate_rise_observations Rops integ view = Ok (map snd rows).
 Proof. exact simulate_rise_observations_spec. Qed.
 Print Assumptions C17_observations.
+
+(** ---- oracle-free, over the exact splines of Model/SplineWrapPP.v *)
+
+(** Any piecewise polynomial starting each piece at its knot and taking the
+    knot values at the ends of each piece (both the order-1 spline and every
+    cubic accepted by [nak_check] do): storage differences ARE the Riemann
+    integral of the clamped specific yield; nothing is assumed. *)
+Theorem C17_diff_exact :
+  forall (knots values : list R) (segs : list (seg (F:=R))),
+    (2 <= length knots)%nat -> incr_list knots -> interp_spec knots values segs ->
+    forall grid m W,
+      rise_curve Rops (pp_integrate Rops knots segs) grid m = Ok W ->
+      forall i j d, (i < length grid)%nat -> (j < length grid)%nat ->
+        nth j W d - nth i W d = RInt (pp_call Rops knots segs) (nth i grid d) (nth j grid d).
+Proof. exact exact_curve_diff_RInt. Qed.
+Print Assumptions C17_diff_exact.
+
+Theorem C17_monotone_exact :
+  forall (knots values : list R) (segs : list (seg (F:=R))),
+    (2 <= length knots)%nat -> incr_list knots -> interp_spec knots values segs ->
+    (forall x, pp_xmin Rops knots <= x <= pp_xmax Rops knots -> 0 <= pp_eval Rops segs x) ->
+    forall grid m W,
+      rise_curve Rops (pp_integrate Rops knots segs) grid m = Ok W ->
+      (forall i j d, (i <= j)%nat -> (j < length grid)%nat -> nth i grid d <= nth j grid d) ->
+      forall i j d, (i <= j)%nat -> (j < length grid)%nat -> nth i W d <= nth j W d.
+Proof. exact exact_curve_monotone. Qed.
+Print Assumptions C17_monotone_exact.
+
+(** Order 1, all knots and values: the shape of the PEATCLSM specific yield. *)
+Theorem C17_diff_linear :
+  forall knots values, (2 <= length knots)%nat -> incr_list knots ->
+    length values = length knots ->
+    forall grid m W,
+      rise_curve Rops (pp_integrate Rops knots (lin_pp Rops knots values)) grid m = Ok W ->
+      forall i j d, (i < length grid)%nat -> (j < length grid)%nat ->
+        nth j W d - nth i W d
+        = RInt (pp_call Rops knots (lin_pp Rops knots values)) (nth i grid d) (nth j grid d).
+Proof. exact linear_curve_diff_RInt. Qed.
+Print Assumptions C17_diff_linear.
+
+(** Non-vacuity (rational instance, computed): the linear spline through
+    (0,1),(1,2),(3,0) on a grid straddling both ends, requested mean 10:
+    increments 1, 3/2, 3/2, 1/2, 0; the curve and its mean. *)
+Example C17_example_curve :
+  let knots := [0; 1; 3]%Q in
+  let integ := Qpp_integrate knots (Qlin_pp knots [1; 2; 0]%Q) in
+  match rise_curve Qops integ [-1; 0; 1; 2; 3; 5]%Q 10%Q with
+  | Ok W => (list_eqb Qeq_bool W [29 # 4; 33 # 4; 39 # 4; 45 # 4; 47 # 4; 47 # 4]%Q
+             && Qeq_bool (fmean Qops W) 10)%bool
+  | Err _ => false
+  end = true.
+Proof. vm_compute. reflexivity. Qed.
+
+(** Non-vacuity: the command on a three-level master curve handed over out of
+    order; and the failure without any level. *)
+Example C17_example_command :
+  let knots := [0; 1; 3]%Q in
+  let integ := Qpp_integrate knots (Qlin_pp knots [1; 2; 0]%Q) in
+  (match simulate_rise Qops integ [(1, 8); (-1, 5); (0, 2)]%Q with
+   | Ok rows => list_eqb (fun a b => match a, b with (x, y, z), (x', y', z') =>
+                            Qeq_bool x x' && Qeq_bool y y' && Qeq_bool z z' end)
+                         rows [(-1, 5, 23 # 6); (0, 2, 29 # 6); (1, 8, 19 # 3)]%Q
+   | Err _ => false
+   end
+   && match simulate_rise Qops integ [] with Err EValue => true | _ => false end
+   && match rise_curve Qops integ [] 0%Q with Err EIndex => true | _ => false end)%bool = true.
+Proof. vm_compute. reflexivity. Qed.
